@@ -1,4 +1,5 @@
 //! Single-thread history machine: real world + trace-checking monitor.
+pub mod fuzzgen;
 pub mod monitor;
 pub mod ops;
 pub mod trace;
